@@ -43,6 +43,12 @@ type Op struct {
 	Lp     bool   `json:"lp,omitempty"`      // data: wrapped in an LpPacket with a PIT token
 	Ms     int    `json:"ms,omitempty"`
 	K      int    `json:"k,omitempty"` // fire: k-th due timer; reply: k-th received Interest
+	// express: the application retransmits - on a timeout or Nack its callback asks for the same Interest to be
+	// expressed again (new nonce), up to Retry times in a row. As the engine's interface demands ("the callback
+	// should create go routine or channel back to another routine"), the new Express call is made right after the
+	// engine call that ran the callback has returned, not from inside it (from inside it deadlocks by design: the
+	// engine runs callbacks with its PIT lock held)
+	Retry int `json:"retry,omitempty"`
 	// race: the sub-operations (express / data / nack / fire) run as concurrent tasks; a cooperative scheduler lets
 	// one of them run at a time and switches at the engine's lock acquisitions, Sched picks who continues
 	Sub   []Op  `json:"sub,omitempty"`
@@ -110,6 +116,9 @@ func (Engine) Generate(prop string, r *kit.Rand, tier string) *kit.Scenario[Conf
 			}
 			if r.Chance(0.12) {
 				o.Digest = r.Range(1, 2)
+			}
+			if r.Chance(0.15) {
+				o.Retry = r.Range(1, 3)
 			}
 			nexp++
 			sc.Ops = append(sc.Ops, o)
@@ -429,52 +438,83 @@ func (e Engine) runBody(t *testing.T, ctx *kit.Ctx, sc *kit.Scenario[Config, Op]
 		return nil
 	}
 
+	gotInStep := func(id int) bool {
+		for _, c := range cbs {
+			if c.id == id {
+				return true
+			}
+		}
+		return false
+	}
+	var expressFn func(nm string, cbp bool, lifeMs, digest, retry int, fromCb bool) *kit.Result
+	var cbFail *kit.Result         // a failure of a retransmission
+	var retryQ []func() *kit.Result // retransmissions asked for by callbacks, made once the engine call has returned
+	drainRetries := func() {
+		for len(retryQ) > 0 {
+			f := retryQ[0]
+			retryQ = retryQ[1:]
+			ctx.Probe("retransmission-after-timeout-or-nack")
+			if rr := f(); rr != nil && cbFail == nil {
+				cbFail = rr
+			}
+		}
+	}
+	expressFn = func(nm string, cbp bool, lifeMs, digest, retry int, fromCb bool) *kit.Result {
+		name := mkName(nm)
+		p := &pend{id: len(pends), name: nm, cbp: cbp, t0: nowT()}
+		if digest > 0 {
+			sum := sha256.Sum256(dataWire(nm, digest-1))
+			p.digest = sum[:]
+			name = append(name.Clone(), enc.Component{Typ: enc.TypeImplicitSha256DigestComponent, Val: sum[:]})
+		}
+		cfg := &ndn.InterestConfig{CanBePrefix: cbp, Nonce: utils.IdPtr(uint64(1000 + len(pends)))}
+		p.life = 4 * time.Second
+		if lifeMs > 0 {
+			p.life = time.Duration(lifeMs) * time.Millisecond
+			cfg.Lifetime = utils.IdPtr(p.life)
+		}
+		ei, err := spec.Spec{}.MakeInterest(name, cfg, nil, nil)
+		if err != nil {
+			panic("harness: MakeInterest: " + err.Error())
+		}
+		pends = append(pends, p)
+		id := p.id
+		err = eng.Express(ei, func(a ndn.ExpressCallbackArgs) {
+			r := cbRec{id: id}
+			switch a.Result {
+			case ndn.InterestResultData:
+				r.kind = "data"
+				if a.Data != nil {
+					r.data = a.Data.Name().String()
+				}
+				r.raw = append([]byte(nil), a.RawData.Join()...)
+			case ndn.InterestResultNack:
+				r.kind = "nack"
+			case ndn.InterestResultTimeout:
+				r.kind = "timeout"
+			default:
+				r.kind = fmt.Sprintf("other-%d", a.Result)
+			}
+			cbs = append(cbs, r)
+			appYield()
+			if retry > 0 && (r.kind == "timeout" || r.kind == "nack") {
+				retryQ = append(retryQ, func() *kit.Result { return expressFn(nm, cbp, lifeMs, digest, retry-1, true) })
+			}
+		})
+		if err != nil {
+			return fail("C20/express-failed", "", "Express(%s) returned %v (from inside a callback: %v)", nm, err, fromCb)
+		}
+		return nil
+	}
+
 	for i, op := range sc.Ops {
 		step = i
 		cbs = cbs[:0]
 		nsent := sentCount()
 		switch op.Op {
 		case "express":
-			name := mkName(op.Name)
-			p := &pend{id: len(pends), name: op.Name, cbp: op.CBP, t0: nowT()}
-			if op.Digest > 0 {
-				sum := sha256.Sum256(dataWire(op.Name, op.Digest-1))
-				p.digest = sum[:]
-				name = append(name.Clone(), enc.Component{Typ: enc.TypeImplicitSha256DigestComponent, Val: sum[:]})
-			}
-			cfg := &ndn.InterestConfig{CanBePrefix: op.CBP, Nonce: utils.IdPtr(uint64(1000 + len(pends)))}
-			p.life = 4 * time.Second
-			if op.LifeMs > 0 {
-				p.life = time.Duration(op.LifeMs) * time.Millisecond
-				cfg.Lifetime = utils.IdPtr(p.life)
-			}
-			ei, err := spec.Spec{}.MakeInterest(name, cfg, nil, nil)
-			if err != nil {
-				panic("harness: MakeInterest: " + err.Error())
-			}
-			pends = append(pends, p)
-			id := p.id
-			err = eng.Express(ei, func(a ndn.ExpressCallbackArgs) {
-				r := cbRec{id: id}
-				switch a.Result {
-				case ndn.InterestResultData:
-					r.kind = "data"
-					if a.Data != nil {
-						r.data = a.Data.Name().String()
-					}
-					r.raw = append([]byte(nil), a.RawData.Join()...)
-				case ndn.InterestResultNack:
-					r.kind = "nack"
-				case ndn.InterestResultTimeout:
-					r.kind = "timeout"
-				default:
-					r.kind = fmt.Sprintf("other-%d", a.Result)
-				}
-				cbs = append(cbs, r)
-				appYield()
-			})
-			if err != nil {
-				return fail("C20/express-failed", "", "Express(%s) returned %v", op.Name, err)
+			if r := expressFn(op.Name, op.CBP, op.LifeMs, op.Digest, op.Retry, false); r != nil {
+				return r
 			}
 			if sentCount() != nsent+1 {
 				return fail("C20/interest-not-transmitted", "", "Express(%s) put %d packets on the face", op.Name, sentCount()-nsent)
@@ -789,30 +829,50 @@ func (e Engine) runBody(t *testing.T, ctx *kit.Ctx, sc *kit.Scenario[Config, Op]
 				}
 			}
 		case "final":
-			// faults stop: run the clock beyond every deadline and fire everything due
-			far := nowT()
-			for _, p := range pends {
-				if d := p.t0.Add(p.life); d.After(far) {
-					far = d
+			// faults stop: run the clock beyond every deadline and fire everything due; retransmissions from inside
+			// callbacks create new deadlines, so repeat until nothing is pending (bounded by the retry depth)
+			for round := 0; round < 8; round++ {
+				open := 0
+				for _, p := range pends {
+					if len(p.results) == 0 && !gotInStep(p.id) {
+						open++
+					}
 				}
-			}
-			if useDummy {
-				dtimer.MoveForward(far.Sub(nowT()) + time.Second)
-				dtimer.MoveForward(time.Second)
-			}
-			if useReal {
-				time.Sleep(far.Sub(nowT()) + 2*time.Second)
-				synctest.Wait()
-			}
-			timer.now = far.Add(time.Second)
-			for guard := 0; guard < 10000 && !useDummy && !useReal; guard++ {
-				d := timer.due()
-				if len(d) == 0 {
+				if open == 0 && round > 0 {
 					break
 				}
-				d[0].fired = true
-				d[0].f()
+				far := nowT()
+				for _, p := range pends {
+					if d := p.t0.Add(p.life); d.After(far) {
+						far = d
+					}
+				}
+				if useDummy {
+					dtimer.MoveForward(far.Sub(nowT()) + time.Second)
+					dtimer.MoveForward(time.Second)
+				}
+				if useReal {
+					time.Sleep(far.Sub(nowT()) + 2*time.Second)
+					synctest.Wait()
+				}
+				if !useDummy && !useReal {
+					timer.now = far.Add(time.Second)
+				}
+				for guard := 0; guard < 10000 && !useDummy && !useReal; guard++ {
+					d := timer.due()
+					if len(d) == 0 {
+						break
+					}
+					d[0].fired = true
+					d[0].f()
+					drainRetries()
+				}
+				drainRetries()
 			}
+		}
+		drainRetries()
+		if cbFail != nil {
+			return cbFail
 		}
 		res.Steps++
 		// ---- oracle over the callbacks of this step
